@@ -156,7 +156,8 @@ theorem downStep_DI {ti : TyInfo} {initPos I B} {acc : Chain × IMap} {i : Nat}
               · cases he
               · exact h2.a d e q he hq }
       · intro e he p hp
-        have ⟨s1, _, _⟩ := adds_foldl_spec (i + 2) i (((requireParams ti c1 i avail .inp).get i).c.out.filter (· != tNoType)) avail
+        have ⟨s1, _, _⟩ := adds_foldl_spec (i + 2) i (((requireParams ti c1 i avail .inp).get i).c.out.filter
+          (fun t => t != tNoType && (t != tUnused || ((requireParams ti c1 i avail .inp).get i).c.synthetic))) avail
         rcases s1 e he p hp with ⟨e0, he0, hp0⟩ | hpi
         · exact Nat.lt_succ_of_lt (hav e0 he0 p hp0)
         · rw [hpi]; exact Nat.lt_succ_self i
